@@ -51,7 +51,7 @@ m = {
     'setup_cmd': './setup.sh',
     'hooks': {
         'guard': 'kani',
-        'enable': 'no source hooks: Kani harness modules live in /verif/kani and are attached to a scratch copy of /repo by appending `#[cfg(kani)] #[path=..] mod ..;` lines there; Verus units are extracted from /repo on every run',
+        'enable': 'no source hooks: Kani harness modules live in /verif/kani and are attached to a scratch copy of /repo by appending `#[cfg(kani)] #[path=..] mod ..;` lines there; Verus units are extracted from /repo on every run; native driver modules live in /verif/native and are attached to a scratch copy the same way (`#[cfg(test)] #[path=..] mod ..;`). /repo itself is never touched by a check',
         'baseline_off_cmd': 'cd /repo && cargo test --workspace --no-fail-fast --offline',
         'source_commits': [],
         'add_only': True,
